@@ -1,3 +1,5 @@
 import Rtsp.Drv.Pipe
 open Rtsp.Drv
-def main : IO Unit := runMain do return [("pipe", ← Pipe.mk)]
+/- two independent instances of the pipeline model: `pipe` (stream → readers) and `pub` (the second
+direction's first hop: recording client → server session) -/
+def main : IO Unit := runMain do return [("pipe", ← Pipe.mk), ("pub", ← Pipe.mk)]
